@@ -138,7 +138,16 @@ EXPORT errno_t _mbsrtowcs_s_chk(size_t *restrict retvalp,
     CHK_SRC_NULL("mbsrtowcs_s", retvalp)
     *retvalp = 0;
     CHK_SRC_NULL("mbsrtowcs_s", ps)
-    CHK_SRCW_NULL_CLEAR("mbsrtowcs_s", srcp)
+    if (unlikely(srcp == NULL)) {
+        /* dest may be null as well (the size-query form): nothing to clear then */
+        if (dest) {
+            handle_werror(dest, dmax, "mbsrtowcs_s: srcp is null", ESNULLP);
+        } else {
+            invoke_safe_str_constraint_handler("mbsrtowcs_s: srcp is null",
+                                               NULL, ESNULLP);
+        }
+        return RCNEGATE(ESNULLP);
+    }
     CHK_SRC_NULL("mbsrtowcs_s", *srcp)
     if (dest) {
         size_t destsz = dmax * sizeof(wchar_t);
